@@ -2,11 +2,13 @@
   XotModel.Lemmas.BytesSpell — part 2 of the declaration reader: from bytes to the ASCII string.
 
   `Spells bs s`: the bytes `bs` carry the ASCII string `s` — one byte per character, in order, with
-  any number of bytes the `for` loop of `xml_declaration` skips (NUL, ≥ 0x80) before, between and
-  after them.  That covers the single-byte / UTF-8 form, UTF-16 and UCS-4 code units in either byte
-  order, and a byte order mark in front.  Main result `xmlDeclaration_spelled`: if the first bytes
-  of the data spell a rendered declaration within the 1024 bytes the reader looks at, the reader
+  any number of NUL bytes (the only bytes the `for` loop of `xml_declaration` skips since
+  /repo 41ece46) before, between and after them.  That covers the single-byte / UTF-8 form and
+  UTF-16 and UCS-4 code units in either byte order; a byte order mark (`declBoms`: the ones the
+  reader removes) may stand in front.  Main result `xmlDeclaration_spelled`: if the bytes after the
+  optional byte order mark spell a rendered declaration — of ANY length (/repo c3fcdf4) — the reader
   answers the declaration's label (`none` when it has no `encoding`), whatever follows.
+  `xmlDeclaration_non_ascii_none`: a byte ≥ 0x80 before the first `>` (after the mark): `none`.
 -/
 import XotModel.Lemmas.BytesDecl
 
@@ -14,45 +16,58 @@ namespace XotModel.Bytes
 
 inductive Spells : Bytes → Str → Prop
   | nil : Spells [] []
-  | skip {b : Nat} {bs : Bytes} {s : Str} : (b = 0 ∨ 0x80 ≤ b) → Spells bs s → Spells (b :: bs) s
+  | skip {bs : Bytes} {s : Str} : Spells bs s → Spells (0 :: bs) s
   | char {c : Char} {bs : Bytes} {s : Str} :
       0 < c.toNat → c.toNat < 0x80 → Spells bs s → Spells (c.toNat :: bs) (c :: s)
 
-theorem Spells.silent_append {bs : Bytes} {s : Str} (sil : Bytes) (h : ∀ b ∈ sil, b = 0 ∨ 0x80 ≤ b)
-    (hs : Spells bs s) : Spells (sil ++ bs) s := by
-  induction sil with
-  | nil => exact hs
-  | cons b r ih =>
-    exact Spells.skip (h b List.mem_cons_self) (ih (fun x hx => h x (List.mem_cons_of_mem _ hx)))
+theorem Spells.zeros_append {bs : Bytes} {s : Str} (n : Nat) (hs : Spells bs s) :
+    Spells (List.replicate n 0 ++ bs) s := by
+  induction n with
+  | zero => exact hs
+  | succ n ih => exact Spells.skip ih
 
-theorem collectAscii_silent (b : Nat) (bs : Bytes) (h : b = 0 ∨ 0x80 ≤ b) :
-    collectAscii (b :: bs) = collectAscii bs := by
-  rw [collectAscii]
-  have : (b == 0 || decide (b ≥ 0x80)) = true := by
-    rcases h with rfl | h
-    · rfl
-    · simp [h]
-  rw [if_pos this]
+theorem Spells.bytes_lt {bs : Bytes} {s : Str} (hs : Spells bs s) : ∀ b ∈ bs, b < 0x80 := by
+  induction hs with
+  | nil => intro b hb; cases hb
+  | skip _ ih =>
+    intro b hb
+    rcases List.mem_cons.mp hb with rfl | hb
+    · omega
+    · exact ih b hb
+  | char _ h1 _ ih =>
+    intro b hb
+    rcases List.mem_cons.mp hb with rfl | hb
+    · exact h1
+    · exact ih b hb
+
+theorem Spells.length_le {bs : Bytes} {s : Str} (hs : Spells bs s) : s.length ≤ bs.length := by
+  induction hs with
+  | nil => exact Nat.le_refl _
+  | skip _ ih => simp only [List.length_cons]; omega
+  | char _ _ _ ih => simp only [List.length_cons]; omega
+
+theorem collectAscii_zero (bs : Bytes) : collectAscii (0 :: bs) = collectAscii bs := by
+  rw [collectAscii]; rfl
 
 /-- The `for` loop on bytes that spell `body ++ ">"` (no other `>`): exactly that string, whatever
     follows. -/
 theorem collectAscii_spells {pre : Bytes} {s : Str} (hs : Spells pre s) :
-    ∀ body, s = body ++ ['>'] → '>' ∉ body → ∀ x, collectAscii (pre ++ x) = body ++ ['>'] := by
+    ∀ body, s = body ++ ['>'] → '>' ∉ body → ∀ x, collectAscii (pre ++ x) = some (body ++ ['>']) := by
   induction hs with
   | nil => intro body h; cases body <;> cases h
-  | skip hb _ ih =>
+  | skip _ ih =>
     intro body h hn x
-    rw [List.cons_append, collectAscii_silent _ _ hb]
+    rw [List.cons_append, collectAscii_zero]
     exact ih body h hn x
   | @char c bs s h0 h1 _ ih =>
     intro body h hn x
-    have hsil : (c.toNat == 0 || decide (c.toNat ≥ 0x80)) = false := by
-      simp only [Bool.or_eq_false_iff, beq_eq_false_iff_ne, decide_eq_false_iff_not]; omega
+    have hz : (c.toNat == 0) = false := by simp only [beq_eq_false_iff_ne, ne_eq]; omega
+    have hh : ¬ (c.toNat ≥ 0x80) := by omega
     cases body with
     | nil =>
       simp only [List.nil_append, List.cons.injEq] at h
       obtain ⟨rfl, _⟩ := h
-      rw [List.cons_append, collectAscii, hsil]
+      rw [List.cons_append, collectAscii, hz]
       rfl
     | cons c' body' =>
       simp only [List.cons_append, List.cons.injEq] at h
@@ -61,9 +76,60 @@ theorem collectAscii_spells {pre : Bytes} {s : Str} (hs : Spells pre s) :
       have hne' : (c.toNat == 0x3E) = false := by
         simp only [beq_eq_false_iff_ne, ne_eq]
         intro e; exact hne (Char.toNat_inj.mp e)
-      rw [List.cons_append, collectAscii, hsil]
-      simp only [Bool.false_eq_true, if_false, hne', Char.ofNat_toNat, List.cons_append]
+      rw [List.cons_append, collectAscii, hz]
+      simp only [Bool.false_eq_true, if_false, hh, hne']
       rw [ih body' hs' (fun hm => hn (List.mem_cons_of_mem _ hm)) x]
+      simp only [Char.ofNat_toNat, List.cons_append]
+
+/-- A byte ≥ 0x80 before the first `>`: the loop ends with `None`. -/
+theorem collectAscii_high (p : Bytes) (b : Nat) (rest : Bytes) (hb : 0x80 ≤ b)
+    (hp : ∀ x ∈ p, x < 0x80 ∧ x ≠ 0x3E) : collectAscii (p ++ b :: rest) = none := by
+  induction p with
+  | nil =>
+    rw [List.nil_append, collectAscii]
+    have : (b == 0) = false := by simp only [beq_eq_false_iff_ne, ne_eq]; omega
+    simp [this, hb]
+  | cons x xs ih =>
+    have hx := hp x List.mem_cons_self
+    have ih' := ih (fun y hy => hp y (List.mem_cons_of_mem _ hy))
+    rw [List.cons_append, collectAscii]
+    split
+    · exact ih'
+    · have : ¬ (x ≥ 0x80) := by omega
+      have h3 : (x == 0x3E) = false := by simp only [beq_eq_false_iff_ne, ne_eq]; exact hx.2
+      simp only [this, if_false, h3, Bool.false_eq_true, ih']
+
+/-! ### The byte order marks the reader removes -/
+
+/-- No mark, UTF-8, UTF-16LE (also the first half of UCS-4LE), UTF-16BE, UCS-4BE, UCS-4 (2143). -/
+def declBoms : List Bytes :=
+  [[], [0xEF, 0xBB, 0xBF], [0xFF, 0xFE], [0xFE, 0xFF], [0, 0, 0xFE, 0xFF], [0, 0, 0xFF, 0xFE]]
+
+theorem stripDeclBom_of_lt (a b c : Nat) (rest : Bytes) (ha : a < 0x80) (hc : c < 0x80) :
+    stripDeclBom (a :: b :: c :: rest) = a :: b :: c :: rest := by
+  have a1 : ¬ 0xEF = a := by omega
+  have a2 : ¬ 0xFF = a := by omega
+  have a3 : ¬ 0xFE = a := by omega
+  have c2 : ¬ 0xFF = c := by omega
+  have c3 : ¬ 0xFE = c := by omega
+  simp [stripDeclBom, List.isPrefixOf, a1, a2, a3, c2, c3]
+
+theorem stripDeclBom_bom (bom x : Bytes) (hb : bom ∈ declBoms) (hx : stripDeclBom x = x) :
+    stripDeclBom (bom ++ x) = x := by
+  simp only [declBoms, List.mem_cons, List.not_mem_nil, or_false] at hb
+  rcases hb with rfl | rfl | rfl | rfl | rfl | rfl
+  · exact hx
+  all_goals simp [stripDeclBom, List.isPrefixOf]
+
+theorem stripDeclBom_spells {pre : Bytes} {s : Str} (hs : Spells pre s) (hlen : 3 ≤ s.length) (tail : Bytes) :
+    stripDeclBom (pre ++ tail) = pre ++ tail := by
+  have hl := hs.length_le
+  have hb := hs.bytes_lt
+  rcases pre with _ | ⟨a, _ | ⟨b, _ | ⟨c, rest⟩⟩⟩
+  · simp only [List.length_nil] at hl; omega
+  · simp only [List.length_cons, List.length_nil] at hl; omega
+  · simp only [List.length_cons, List.length_nil] at hl; omega
+  · exact stripDeclBom_of_lt a b c _ (hb a (by simp)) (hb c (by simp))
 
 /-! ### Characters of a rendered declaration: ASCII, not NUL, `>` only at the very end -/
 
@@ -163,16 +229,30 @@ theorem render_ascii (d : LDecl) (hok : d.ok = true) : ∀ c ∈ d.render, 0 < c
     exact ⟨this.1, this.2.1⟩
   · simp only [List.mem_singleton] at hc; subst hc; decide
 
-/-- **The declaration reader on bytes.**  `pre` spells a rendered declaration and lies within the
-    first 1024 bytes: `xml_declaration` answers the label, whatever follows. -/
-theorem xmlDeclaration_spelled (d : LDecl) (hok : d.ok = true) (pre tail : Bytes)
-    (hs : Spells pre d.render) (hlen : pre.length ≤ 1024) :
-    xmlDeclaration (pre ++ tail) = d.encoding := by
+theorem render_length (d : LDecl) : 3 ≤ d.render.length := by
+  rw [render_eq_attrs]
+  simp only [List.length_append, List.length_cons]
+  omega
+
+/-- **The declaration reader on bytes.**  After an optional byte order mark (`declBoms`) the bytes
+    `pre` spell a rendered declaration, of any length: `xml_declaration` answers the label, whatever
+    follows. -/
+theorem xmlDeclaration_spelled (d : LDecl) (hok : d.ok = true) (bom pre tail : Bytes)
+    (hbom : bom ∈ declBoms) (hs : Spells pre d.render) :
+    xmlDeclaration (bom ++ (pre ++ tail)) = d.encoding := by
   unfold xmlDeclaration
-  rw [List.take_append, List.take_of_length_le hlen,
+  rw [stripDeclBom_bom bom _ hbom (stripDeclBom_spells hs (render_length d) tail),
     collectAscii_spells hs (declBody d) (render_eq_body d)
-      (fun hm => (plain_spec (List.all_eq_true.mp (declBody_plain d hok) _ hm)).2.2 rfl),
-    ← render_eq_body, declFromAscii_render d hok]
+      (fun hm => (plain_spec (List.all_eq_true.mp (declBody_plain d hok) _ hm)).2.2 rfl)]
+  simp only []
+  rw [← render_eq_body, declFromAscii_render d hok]
+
+/-- **Not a declaration**: after the byte order mark, a byte ≥ 0x80 before the first `>` (only
+    bytes < 0x80 other than `>` in front of it). -/
+theorem xmlDeclaration_non_ascii_none (data p rest : Bytes) (b : Nat) (hd : stripDeclBom data = p ++ b :: rest)
+    (hb : 0x80 ≤ b) (hp : ∀ x ∈ p, x < 0x80 ∧ x ≠ 0x3E) : xmlDeclaration data = none := by
+  unfold xmlDeclaration
+  rw [hd, collectAscii_high p b rest hb hp]
 
 /-! ### The forms that spell an ASCII string -/
 
@@ -199,9 +279,9 @@ theorem spells_utf16 (be : Bool) (s : Str) (h : ∀ c ∈ s, 0 < c.toNat ∧ c.t
     rw [encodeUtf16, utf16Bytes, if_pos (by omega), unit16]
     cases be
     · simp only [Bool.false_eq_true, if_false, hd, hm, List.cons_append, List.nil_append]
-      exact Spells.char h0 h1 (Spells.skip (Or.inl rfl) ih')
+      exact Spells.char h0 h1 (Spells.skip ih')
     · simp only [if_true, hd, hm, List.cons_append, List.nil_append]
-      exact Spells.skip (Or.inl rfl) (Spells.char h0 h1 ih')
+      exact Spells.skip (Spells.char h0 h1 ih')
 
 theorem length_encodeUtf8_ascii (s : Str) (h : ∀ c ∈ s, c.toNat < 0x80) : (encodeUtf8 s).length = s.length := by
   rw [encodeUtf8_ascii s h, List.length_map]
@@ -216,12 +296,17 @@ theorem length_encodeUtf16_ascii (be : Bool) (s : Str) (h : ∀ c ∈ s, c.toNat
       ih (fun x hx => h x (List.mem_cons_of_mem _ hx))]
     cases be <;> simp [unit16] <;> omega
 
-/-- No declaration: the ASCII bytes at the start do not read `<?xml`. -/
+/-- No declaration: what the loop collects does not begin `<?xml`. -/
 theorem xmlDeclaration_none (data : Bytes)
-    (h : (['<', '?', 'x', 'm', 'l'].isPrefixOf (collectAscii (data.take 1024))) = false) :
+    (h : ∀ a, collectAscii (stripDeclBom data) = some a → (['<', '?', 'x', 'm', 'l'].isPrefixOf a) = false) :
     xmlDeclaration data = none := by
-  unfold xmlDeclaration declFromAscii stripPrefix
-  rw [h]
-  rfl
+  unfold xmlDeclaration
+  cases hc : collectAscii (stripDeclBom data) with
+  | none => rfl
+  | some a =>
+    simp only []
+    unfold declFromAscii stripPrefix
+    rw [h a hc]
+    rfl
 
 end XotModel.Bytes
